@@ -40,6 +40,7 @@ type GenOpts struct {
 	Overhead       bool // some pods carry spec.overhead (RuntimeClass)
 	DRA            bool // some worlds have DRA devices and resource claims
 	SchedCrash     bool // the scheduler process may crash in the middle of a cycle and restart
+	MidEvict       bool // a victim may finish or be deleted between the snapshot and its eviction
 }
 
 func pick[T any](t *rapid.T, label string, xs ...T) T {
@@ -483,7 +484,9 @@ func genOps(t *rapid.T, o GenOpts, w *World) []Op {
 	var ops []Op
 	for c := 0; c < cycles; c++ {
 		cy := Op{Kind: "cycle"}
-		if o.SchedCrash && chance(t, "schedcrash", 4) { // the scheduler process dies after its k-th mutating API call of the cycle
+		if o.MidEvict && chance(t, "midevict", 25) { // a victim finishes / is deleted between the snapshot and its eviction
+			cy.Arg = fmt.Sprintf("midevict:%d:%s", rapid.IntRange(1, 4).Draw(t, "midevictn"), pick(t, "midevictkind", "complete", "delete"))
+		} else if o.SchedCrash && chance(t, "schedcrash", 4) { // the scheduler process dies after its k-th mutating API call of the cycle
 			cy.Arg = fmt.Sprintf("crash:%d", rapid.IntRange(1, 6).Draw(t, "crashat"))
 		}
 		ops = append(ops, cy)
